@@ -269,7 +269,9 @@ template<typename T> struct TdExec {
   TdExec(Ctx& c, const Plan& pl, const char* f): ctx(c), p(pl), fam(f) { static const int ks[] = { 10, 10, 20, 50, 100, 200 }; k = static_cast<uint16_t>(ks[p.cfg[1] % 6]); }
   std::string fp(const char* cls) const { return "C17|" + fam + "|" + cls; }
   static T value_of(i64 start, i64 j, i64 count, i64 pat) {
-    switch (pat & 7) { case 0: return static_cast<T>(start + j); case 1: return static_cast<T>(start + count - j); case 2: { u64 s = static_cast<u64>(start * 7 + j); return static_cast<T>(static_cast<double>(splitmix64(s) % 1000000) / 64.0 - 3000.0); }
+    // patterns 8 and 9: values that are not dyadic (sums and products round), constant or a few distinct ones: interpolation between equal or close centroid means
+    switch (pat % 10) { case 8: return static_cast<T>(static_cast<double>(start % 97) / 10.0 + 0.1); case 9: return static_cast<T>(0.1 * static_cast<double>(1 + (j % 3)) + static_cast<double>(start % 3));
+      case 0: return static_cast<T>(start + j); case 1: return static_cast<T>(start + count - j); case 2: { u64 s = static_cast<u64>(start * 7 + j); return static_cast<T>(static_cast<double>(splitmix64(s) % 1000000) / 64.0 - 3000.0); }
       case 3: return static_cast<T>(start); case 4: return static_cast<T>((j % 3) * 1000 + (j % 7)); case 5: return static_cast<T>(start % 5 + (j % 2)); case 6: { u64 s = static_cast<u64>(start + j * 31); return static_cast<T>(std::ldexp(1.0, static_cast<int>(splitmix64(s) % 40) - 20)); } default: return static_cast<T>(-(start + j)) / static_cast<T>(8); }
   }
   void check_basic(Node& n, const char* after) {
